@@ -115,7 +115,8 @@ func GenLineFilter(t *rapid.T, s Schema) gen.Stage {
 		if s.OneIP && s.Format == "plain" && rapid.Bool().Draw(t, "ip-neg") {
 			st.Op = "!="
 		}
-		st.Value = genBS(rapid.SampledFrom([]string{"10.0.0.1", "10.0.0.0/8", "10.0.0.1-10.0.0.9", "192.168.0.0/16", "::1", "2001:db8::/32", "172.16.5.4", "10.0.0.2-10.0.0.4"}).Draw(t, "ip-pattern"))
+		st.Value = genBS(rapid.SampledFrom([]string{"10.0.0.1", "10.0.0.0/8", "10.0.0.1-10.0.0.9", "192.168.0.0/16", "::1", "2001:db8::/32", "172.16.5.4", "10.0.0.2-10.0.0.4",
+			"fe80::/10", "fe80::a", "::", "::/0", "a::", "abcd:ef01::a", "2001:db8::f00d", "::f"}).Draw(t, "ip-pattern"))
 		return st
 	}
 	st := gen.Stage{Kind: "linefilter"}
@@ -176,7 +177,8 @@ var durLiterals = map[string]time.Duration{
 var durLiteralKeys = []string{"100ms", "1s", "2s", "1m", "90s", "1h", "1m30s", "1.5s", "0s", "1d", "150ms"}
 var bytesLiterals = []string{"1KB", "1KiB", "1MB", "600B", "10kb", "10KB", "2MiB", "1.5MB", "512b", "1GB"}
 var numLiterals = []string{"200", "404", "499.5", "1e2", "0", "500", "1.5", "7", "0.5", "100"}
-var ipLiterals = []string{"10.0.0.0/8", "192.168.1.7", "10.0.0.1-10.0.0.9", "::1", "2001:db8::/32", "10.0.0.1", "172.16.0.0/12"}
+var ipLiterals = []string{"10.0.0.0/8", "192.168.1.7", "10.0.0.1-10.0.0.9", "::1", "2001:db8::/32", "10.0.0.1", "172.16.0.0/12",
+	"fe80::/10", "fe80::a", "::", "a::", "abcd:ef01::a", "::f"}
 
 func typedFields(s Schema, afterParser bool) []Field {
 	out := append([]Field{}, s.Labels...)
